@@ -220,6 +220,14 @@ ForestTheorems ==
             \* the witness cell of a loop (its lower-left cell) is inside it and inside none of its descendants
             /\ \A i \in 1..NN : LET w == <<FFace, poly[i].X0, poly[i].Y0>>
                                 IN  LoopIn(poly[i], w) /\ \A j \in Desc(FP, i) : ~LoopIn(poly[j], w)
+            \* reassembly: the induced forest of every selection is what the geometry of the selected loops says
+            /\ \A k \in 1..Len(ReSelections(FP)) :
+                  LET S == ReSelections(FP)[k]
+                  IN  /\ \A i \in S : /\ ReDepth(FP, S, i) = Cardinality(enc[i] \cap S)
+                                       /\ (ReParent(FP, S, i) = 0) = (enc[i] \cap S = {})
+                                       /\ (ReParent(FP, S, i) # 0 => (enc[i] \cap S) \ {ReParent(FP, S, i)} = enc[ReParent(FP, S, i)] \cap S)
+                      /\ \A j \in 1..NN : ReInside(FP, S, j) =
+                              (Cardinality({i \in S : LoopIn(poly[i], <<FFace, poly[j].X0, poly[j].Y0>>)}) % 2 = 1)
 
 EmitForest ==
     IF FullForest
@@ -234,7 +242,18 @@ EmitForest ==
                                            parent |-> IF FP[i] = 0 THEN -1 ELSE FPos(FP[i]) - 1,
                                            ndesc |-> Cardinality(Desc(FP, i)),
                                            wit |-> <<FPoly[i].X0, FPoly[i].Y0>>,
-                                           inside |-> PolyIn(FPoly, <<FFace, FPoly[i].X0, FPoly[i].Y0>>)]]])>>)
+                                           inside |-> PolyIn(FPoly, <<FFace, FPoly[i].X0, FPoly[i].Y0>>)]],
+            \* reassembly steps on the same loop objects: selected input positions (0-based, input order kept),
+            \* the induced forest, and for every loop of the scene whether its witness cell is inside
+            re |-> [s \in 1..Len(ReSelections(FP)) |->
+                      LET S == ReSelections(FP)[s]
+                          sel == SelectSeq([k \in 1..NN |-> k], LAMBDA k : FPerm[k] \in S)     \* input positions
+                      IN  [sel |-> [m \in 1..Len(sel) |-> sel[m] - 1],
+                           want |-> [m \in 1..Len(sel) |-> LET i == FPerm[sel[m]]
+                                                          IN  [depth |-> ReDepth(FP, S, i), hole |-> ReDepth(FP, S, i) % 2 = 1,
+                                                               parent |-> IF ReParent(FP, S, i) = 0 THEN -1 ELSE FPos(ReParent(FP, S, i)) - 1,
+                                                               ndesc |-> ReDesc(FP, S, i)]],
+                           inside |-> [k \in 1..NN |-> ReInside(FP, S, FPerm[k])]]]])>>)
     ELSE TRUE
 
 \* ------------------------------------------------------------------ trace ------
